@@ -178,6 +178,8 @@ pub fn exec(c: &HCase) -> HResult {
     rec::reset_cmps();
     if c.fuel >= -1 {
         rec::install_clock(c.fuel, true);
+    } else {
+        rec::install_hostile_clock(); // no deadline is passed: the clock must be unobservable
     }
     let r = rec::guarded(|| {
         if c.index == "window" {
@@ -299,6 +301,9 @@ fn base_pairs(a: &Args, rng: &mut Rng) -> Vec<Pair> {
     let nrand = a.num("nrand", nrand) as usize;
     for _ in 0..nrand {
         pairs.push(gen::random_pair(rng, maxlen));
+    }
+    for _ in 0..nrand / 20 {
+        pairs.push(gen::anchor_heavy(rng));
     }
     pairs
 }
